@@ -620,6 +620,33 @@ class Fn:
             return ("repeat", E(rv["repeat"][0]), rv["repeat"][1])
         return ("unknown",)
 
+    def discr_variants(self, b):
+        """for a switch on an enum discriminant: {switch value: variant name}, else None"""
+        t = self.term(b)
+        if t["k"] != "switch":
+            return None
+        pl = op_place(t["on"])
+        if not pl or pl["p"]:
+            return None
+        ds = self.defs(pl["l"])
+        if len(ds) != 1 or ds[0][1] == "T":
+            return None
+        rv = self.stmts(ds[0][0])[ds[0][1]]["rv"]
+        if "discr" in rv and "variants" in rv:
+            return {int(v): n for v, n in rv["variants"]}
+        return None
+
+    def discr_enum(self, b):
+        t = self.term(b)
+        pl = op_place(t["on"]) if t["k"] == "switch" else None
+        if not pl or pl["p"]:
+            return None
+        ds = self.defs(pl["l"])
+        if len(ds) != 1 or ds[0][1] == "T":
+            return None
+        rv = self.stmts(ds[0][0])[ds[0][1]]["rv"]
+        return rv.get("enum") if "discr" in rv else None
+
     # -- switch conditions
     def switch_cond(self, b, deep=True):
         t = self.term(b)
